@@ -301,5 +301,714 @@ theorem findDescendants_spec (d : Doc) (hw : WF d) (n : Nat) (hn : n < d.length)
     intro x _
     simp [onAxis]
 
+/-! ## following -/
+
+/-- the non-attribute indices from `a` to the end of the table -/
+def tailNA (d : Doc) (a : Nat) : List Nat :=
+  (List.range' a (d.length - a)).filter (fun j => !d.isAttr j)
+
+theorem tailNA_cons (d : Doc) (hw : WF d) (pos : Nat) (hpos : pos < d.length) (hna : d.isAttr pos = false) :
+    pos :: d.restNA 0 pos = d.tailNA pos := by
+  unfold tailNA restNA
+  obtain ⟨l, hl⟩ : ∃ l, d.length - pos = l + 1 := ⟨d.length - pos - 1, by omega⟩
+  rw [hl, List.range'_succ, List.filter_cons]
+  simp only [hna, Bool.not_false, if_true]
+  rw [hw.w0.2.2]
+  have e : d.length - (pos + 1) = l := by omega
+  rw [e]
+
+theorem tailNA_skip (d : Doc) (a b : Nat) (hab : a ≤ b) (hb : b ≤ d.length)
+    (h : ∀ j, a ≤ j → j < b → d.isAttr j = true) : d.tailNA a = d.tailNA b := by
+  unfold tailNA
+  have := @List.range'_append a (b - a) (d.length - b) 1
+  have e : a + 1 * (b - a) = b := by omega
+  rw [e] at this
+  have e2 : b - a + (d.length - b) = d.length - a := by omega
+  rw [e2] at this
+  rw [← this, List.filter_append, filter_range'_none, List.nil_append]
+  intro j h1 h2
+  simp [h j h1 (by omega)]
+
+theorem tailNA_end (d : Doc) : d.tailNA d.length = [] := by
+  simp [tailNA]
+
+/-- one iteration of `findFollowing` away from the context node = one iteration of the pre-order walk below the root -/
+theorem followWalk_step (d : Doc) (ctx f pos : Nat) (h1 : pos ≠ ctx) (h2 : pos ≠ 0) (h3 : d.isAttr pos = false) :
+    d.followWalk ctx (f + 1) pos =
+      match d.descNext 0 pos with
+      | none => [pos]
+      | some k => pos :: d.followWalk ctx f k := by
+  have e1 : (pos == ctx) = false := by simp [h1]
+  have e2 : (pos == 0) = false := by simp [h2]
+  simp only [followWalk, descNext, e1, e2, h3, Bool.false_eq_true, if_false]
+  cases d.firstChild pos <;> simp
+  cases d.climb (some 0) d.length pos <;> simp
+
+theorem followWalk_eq (d : Doc) (hw : WF d) (ctx : Nat) (h0 : 0 < d.length) :
+    ∀ (f pos : Nat), ctx < pos → pos < d.length → d.isAttr pos = false →
+      d.followWalk ctx f pos = d.descWalk 0 f pos := by
+  intro f
+  induction f with
+  | zero => intro pos _ _ _; rfl
+  | succ f ih =>
+    intro pos h1 h2 h3
+    rw [followWalk_step d ctx f pos (by omega) (by omega) h3]
+    have hstep : d.descWalk 0 (f + 1) pos =
+        match d.descNext 0 pos with
+        | none => [pos]
+        | some k => pos :: d.descWalk 0 f k := by
+      simp only [descWalk, descNext]
+      rfl
+    rw [hstep]
+    have hE0 := hw.w0.2.2
+    rcases descNext_spec d hw 0 h0 pos (by omega) (by omega) (Or.inr h3) with ⟨k, hk, k1, k2, k3, _⟩ | ⟨hk, _⟩
+    · rw [hk]
+      simp only
+      rw [ih k (by omega) (by omega) k3]
+    · rw [hk]
+
+theorem followWalk_tail (d : Doc) (hw : WF d) (ctx pos : Nat) (h1 : ctx < pos) (h2 : pos < d.length)
+    (h3 : d.isAttr pos = false) (f : Nat) (hf : d.length - pos ≤ f) :
+    d.followWalk ctx f pos = d.tailNA pos := by
+  have h0 : 0 < d.length := by omega
+  rw [followWalk_eq d hw ctx h0 f pos h1 h2 h3,
+    descWalk_spec d hw 0 h0 f pos (by omega) (by rw [hw.w0.2.2]; exact h2) (Or.inr h3) (by rw [hw.w0.2.2]; exact hf)]
+  exact tailNA_cons d hw pos h2 h3
+
+theorem following_axis_eq (d : Doc) (hw : WF d) (n : Nat) (hn : n < d.length) :
+    d.axis .following n = d.tailNA (d.endOf n) := by
+  have hEn := hw.w1 n hn
+  simp only [axis, Axis.isReverse, ids, List.range_eq_range', Bool.false_eq_true, if_false]
+  unfold tailNA
+  rw [← filter_range'_window (fun j => !d.isAttr j) 0 d.length (d.endOf n) d.length (by omega) hEn.2 (by omega)]
+  apply List.filter_congr
+  intro m hm
+  have hm' := List.mem_range'_1.mp hm
+  have hml : m < d.length := by omega
+  simp only [onAxis, hw.wA n hn m hml]
+  by_cases c1 : n < m <;> by_cases c2 : m < d.endOf n <;> simp [c1, c2, hml] <;> omega
+
+/-- **`findFollowing` = the following axis**, for every well-formed document and every context node. -/
+theorem findFollowing_spec (d : Doc) (hw : WF d) (n : Nat) (hn : n < d.length) :
+    d.findFollowing n = d.axis .following n := by
+  rw [following_axis_eq d hw n hn]
+  have hEn := hw.w1 n hn
+  have hE0 := hw.w0.2.2
+  unfold findFollowing
+  by_cases hattr : d.isAttr n = true
+  · -- attribute context: continue with the owner's first child, else climb from the owner
+    obtain ⟨hEa, h9⟩ := hw.w9 n hn hattr
+    cases hp : d.parentOf n with
+    | none => rw [hp] at h9; simp [onOpt] at h9
+    | some p =>
+      rw [hp] at h9
+      simp only [onOpt] at h9
+      obtain ⟨hp0, hbetween⟩ := h9
+      have h5 := hw.w5 n hn
+      rw [hp] at h5
+      simp only [onOpt] at h5
+      obtain ⟨hpn, hnEp, hpna, _⟩ := h5
+      have hpl : p < d.length := by omega
+      have hEp := hw.w1 p hpl
+      have h2w := hw.w2 p hpl
+      cases hfc : d.firstChild p with
+      | some c =>
+        rw [hfc] at h2w
+        simp only [onOpt] at h2w
+        obtain ⟨a1, a2, a3, a4⟩ := h2w
+        have hnc : n < c := by
+          by_cases e : n < c
+          · exact e
+          · have : c ≠ n := by intro e2; rw [e2] at a3; rw [a3] at hattr; cases hattr
+            have := hbetween c (by omega) a1 (by omega)
+            rw [a3] at this; cases this
+        simp only [followWalk, BEq.rfl, if_true, hattr, hp, Option.bind_some, hfc, List.nil_append]
+        rw [followWalk_tail d hw n c hnc (by omega) a3 d.length (by omega), hEa]
+        exact (tailNA_skip d (n + 1) c (by omega) (by omega) (fun j h1 h2 => a4 j (by omega) (by omega) h2)).symm
+      | none =>
+        rw [hfc] at h2w
+        simp only [onOpt] at h2w
+        simp only [followWalk, BEq.rfl, if_true, hattr, hp, Option.bind_some, hfc]
+        rw [climb_spec d hw 0 (by omega) d.length p hp0 (by omega) hpna (by omega), hE0, hEa]
+        by_cases hE : d.endOf p < d.length
+        · simp only [hE, if_true, List.nil_append]
+          rw [followWalk_tail d hw n (d.endOf p) (by omega) hE (hw.w8 p hpl hpna hE) d.length (by omega)]
+          exact (tailNA_skip d (n + 1) (d.endOf p) (by omega) (by omega) (fun j h1 h2 => h2w j (by omega) (by omega) h2)).symm
+        · simp only [hE, if_false]
+          have e : d.endOf p = d.length := by omega
+          rw [tailNA_skip d (n + 1) d.length (by omega) (Nat.le_refl _) (fun j h1 h2 => h2w j h2 (by omega) (by omega)), tailNA_end]
+  · have hna : d.isAttr n = false := by simpa using hattr
+    by_cases hz : n = 0
+    · subst hz
+      have hns : d.nextSibling 0 = none := by simp [nextSibling, hna, hw.w0.1]
+      simp only [followWalk, BEq.rfl, if_true, hna, Bool.false_eq_true, if_false]
+      obtain ⟨N', hN'⟩ : ∃ N', d.length = N' + 1 := ⟨d.length - 1, by omega⟩
+      rw [hN']
+      simp only [climb, hns, hw.w0.1]
+      rw [hE0, tailNA_end]
+    · simp only [followWalk, BEq.rfl, if_true, hna, Bool.false_eq_true, if_false]
+      rw [climb_spec d hw 0 (by omega) d.length n (by omega) (by omega) hna (by omega), hE0]
+      by_cases hE : d.endOf n < d.length
+      · simp only [hE, if_true, List.nil_append]
+        exact followWalk_tail d hw n (d.endOf n) hEn.1 hE (hw.w8 n hn hna hE) d.length (by omega)
+      · simp only [hE, if_false]
+        have e : d.endOf n = d.length := by omega
+        rw [e, tailNA_end]
+
+
+/-! ## preceding -/
+
+theorem filter_range'_skip (q : Nat → Bool) (pos k n : Nat) (h1 : pos < k) (h2 : k ≤ n)
+    (h : ∀ j, pos < j → j < k → q j = false) :
+    (List.range' pos (n - pos)).filter q = (if q pos then [pos] else []) ++ (List.range' k (n - k)).filter q := by
+  have e1 : List.range' pos (n - pos) = List.range' pos (k - pos) ++ List.range' k (n - k) := by
+    have := @List.range'_append pos (k - pos) (n - k) 1
+    have e : pos + 1 * (k - pos) = k := by omega
+    rw [e] at this
+    rw [this]; congr 1; omega
+  rw [e1, List.filter_append]
+  congr 1
+  obtain ⟨l, hl⟩ : ∃ l, k - pos = l + 1 := ⟨k - pos - 1, by omega⟩
+  rw [hl, List.range'_succ, List.filter_cons]
+  have : (List.range' (pos + 1) l).filter q = [] := by
+    apply filter_range'_none
+    intro j h3 h4
+    exact h j (by omega) (by omega)
+  rw [this]
+
+theorem climb_root (d : Doc) (hw : WF d) (f : Nat) : d.climb (some 0) f 0 = none := by
+  cases f with
+  | zero => rfl
+  | succ f =>
+    have hns : d.nextSibling 0 = none := by simp [nextSibling, hw.w0.2.1, hw.w0.1]
+    simp [climb, hns, hw.w0.1]
+
+/-- the next node of the pre-order walk from the root, as `findPreceeding` computes it away from the special cases -/
+theorem precNext_eq (d : Doc) (hw : WF d) (pos : Nat) :
+    (match d.firstChild pos with
+      | some k => some k
+      | none => d.climb (some 0) d.length pos) = d.descNext 0 pos := by
+  unfold descNext
+  cases d.firstChild pos with
+  | some k => rfl
+  | none =>
+    by_cases e : pos = 0
+    · subst e; simp [climb_root d hw]
+    · have : (pos == 0) = false := by simp [e]
+      simp [this]
+
+theorem precWalk_spec (d : Doc) (hw : WF d) (n : Nat) (hn : n < d.length) :
+    ∀ (f pos : Nat), pos ≤ n → (pos = n ∨ d.isAttr pos = false) → n - pos < f →
+      d.precWalk n f pos =
+        (List.range' pos (n - pos)).filter (fun j => !d.isAttr j && !(d.ancestors n).contains j) := by
+  intro f
+  induction f with
+  | zero => intro pos _ _ h; omega
+  | succ f ih =>
+    intro pos h1 h2 h3
+    have h0 : 0 < d.length := by omega
+    have hE0 := hw.w0.2.2
+    by_cases e : pos = n
+    · subst e
+      simp [precWalk]
+    · have hne : (pos == n) = false := by simp [e]
+      have hlt : pos < n := by omega
+      have hpa : d.isAttr pos = false := by
+        rcases h2 with h2 | h2
+        · exact absurd h2 e
+        · exact h2
+      have hposl : pos < d.length := by omega
+      -- is this the special case "context is an attribute and pos is its owner"?
+      by_cases hsp : d.isAttr n = true ∧ some pos = d.parentOf n
+      · obtain ⟨hattr, hpp⟩ := hsp
+        obtain ⟨_, h9⟩ := hw.w9 n hn hattr
+        rw [← hpp] at h9
+        simp only [onOpt] at h9
+        have hanc : (d.ancestors n).contains pos = true := by
+          rw [hw.wA pos hposl n hn]
+          have h5 := hw.w5 n hn
+          rw [← hpp] at h5
+          simp only [onOpt] at h5
+          simp [h5.1, h5.2.1]
+        have hbeq : (some pos == d.parentOf n) = true := by rw [← hpp]; simp
+        simp only [precWalk, hne, Bool.false_eq_true, if_false, hanc, if_true, hattr, hbeq, Bool.and_self, List.nil_append]
+        have : d.precWalk n f n = [] := by
+          cases f with
+          | zero => rfl
+          | succ f => simp [precWalk]
+        rw [this]
+        symm
+        apply filter_range'_none
+        intro j hj1 hj2
+        by_cases ej : j = pos
+        · subst ej; simp only [hanc]; simp
+        · simp [h9.2 j (by omega) (by omega) (by omega)]
+      · have hdown : (if d.isAttr n && (some pos == d.parentOf n) then some n else d.firstChild pos) = d.firstChild pos := by
+          by_cases c1 : d.isAttr n = true
+          · have : ¬ (some pos = d.parentOf n) := fun h => hsp ⟨c1, h⟩
+            have : (some pos == d.parentOf n) = false := by
+              cases hpn : d.parentOf n with
+              | none => simp
+              | some q => rw [hpn] at this; simp at this ⊢; exact this
+            simp [this]
+          · have : d.isAttr n = false := by simpa using c1
+            simp [this]
+        have hstep : d.precWalk n (f + 1) pos =
+            (if (d.ancestors n).contains pos then [] else [pos]) ++
+              (match d.descNext 0 pos with
+               | none => []
+               | some k => d.precWalk n f k) := by
+          rw [← precNext_eq d hw pos]
+          simp only [precWalk, hne, Bool.false_eq_true, if_false, hdown]
+          cases d.firstChild pos with
+          | some k => simp
+          | none => cases d.climb (some 0) d.length pos <;> simp
+        rw [hstep]
+        -- a non-attribute index greater than pos and at most n exists: n itself, or the owner of the attribute n
+        have hbound : ∃ b, pos < b ∧ b ≤ n ∧ d.isAttr b = false ∧ ∀ j, b < j → j < n → d.isAttr j = true := by
+          by_cases c1 : d.isAttr n = true
+          · obtain ⟨_, h9⟩ := hw.w9 n hn c1
+            cases hpn : d.parentOf n with
+            | none => rw [hpn] at h9; simp [onOpt] at h9
+            | some q =>
+              rw [hpn] at h9
+              simp only [onOpt] at h9
+              have h5 := hw.w5 n hn
+              rw [hpn] at h5
+              simp only [onOpt] at h5
+              have hq : pos ≠ q := fun h => hsp ⟨c1, by rw [hpn, h]⟩
+              have : pos < q := by
+                by_cases c : pos < q
+                · exact c
+                · have := h9.2 pos hposl (by omega) hlt
+                  rw [hpa] at this; cases this
+              exact ⟨q, this, by omega, h5.2.2.1, fun j a b => h9.2 j (by omega) a b⟩
+          · exact ⟨n, hlt, Nat.le_refl _, by simpa using c1, fun j a b => by omega⟩
+        obtain ⟨b, hb1, hb2, hb3, hb4⟩ := hbound
+        rcases descNext_spec d hw 0 h0 pos (by omega) (by omega) (Or.inr hpa) with ⟨k, hk, k1, k2, k3, k4⟩ | ⟨hk, hall⟩
+        · have hkb : k ≤ b := by
+            by_cases c : k ≤ b
+            · exact c
+            · have := k4 b hb1 (by omega)
+              rw [hb3] at this; cases this
+          rw [hk]
+          simp only
+          rw [ih k (by omega) (Or.inr k3) (by omega)]
+          rw [filter_range'_skip (fun j => !d.isAttr j && !(d.ancestors n).contains j) pos k n k1 (by omega)
+            (fun j a c => by simp [k4 j a c])]
+          simp [hpa]
+        · have := hall b hb1 (by omega)
+          rw [hb3] at this; cases this
+
+/-- **`findPreceeding` = the preceding axis** (reverse document order), for every well-formed document and every
+context node (attribute contexts included). -/
+theorem findPreceeding_spec (d : Doc) (hw : WF d) (n : Nat) (hn : n < d.length) :
+    d.findPreceeding n = d.axis .preceding n := by
+  have hroot : (0 = n ∨ d.isAttr 0 = false) := Or.inr hw.w0.2.1
+  have hwalk := precWalk_spec d hw n hn (d.length + 1) 0 (by omega) hroot (by omega)
+  unfold findPreceeding
+  rw [hwalk]
+  simp only [axis, Axis.isReverse, ids, List.range_eq_range', if_true, Nat.sub_zero]
+  congr 1
+  have hwin := filter_range'_window (fun j => !d.isAttr j && !(d.ancestors n).contains j) 0 d.length 0 n (by omega) (by omega) (by omega)
+  simp only [Nat.sub_zero] at hwin
+  rw [← hwin]
+  apply List.filter_congr
+  intro m hm
+  have hm' := List.mem_range'_1.mp hm
+  by_cases c : m < n <;> simp [onAxis, c]
+
+
+/-! ## chains: child, attribute, siblings, parent, self, ancestors; the combined statement -/
+
+/-- `nextFrom` finds the least index in `[k, hi)` satisfying `p` -/
+theorem nextFrom_spec (p : Nat → Bool) (hi : Nat) : ∀ (f k : Nat), hi - k < f →
+    (∃ j, nextFrom p hi f k = some j ∧ k ≤ j ∧ j < hi ∧ p j = true ∧ ∀ i, k ≤ i → i < j → p i = false) ∨
+    (nextFrom p hi f k = none ∧ ∀ i, k ≤ i → i < hi → p i = false) := by
+  intro f
+  induction f with
+  | zero => intro k h; omega
+  | succ f ih =>
+    intro k h
+    unfold nextFrom
+    by_cases c1 : k ≥ hi
+    · simp only [c1, if_true]
+      exact Or.inr ⟨by simp, fun i a b => by omega⟩
+    · simp only [c1, if_false]
+      by_cases c2 : p k = true
+      · simp only [c2, if_true]
+        exact Or.inl ⟨k, by simp, Nat.le_refl _, by omega, c2, fun i a b => by omega⟩
+      · have c2' : p k = false := by simpa using c2
+        simp only [c2', Bool.false_eq_true, if_false]
+        rcases ih (k + 1) (by omega) with ⟨j, h1, h2, h3, h4, h5⟩ | ⟨h1, h2⟩
+        · refine Or.inl ⟨j, h1, by omega, h3, h4, ?_⟩
+          intro i a b
+          by_cases e : i = k
+          · subst e; exact c2'
+          · exact h5 i (by omega) b
+        · refine Or.inr ⟨h1, ?_⟩
+          intro i a b
+          by_cases e : i = k
+          · subst e; exact c2'
+          · exact h2 i (by omega) b
+
+theorem firstFrom_spec (d : Doc) (p : Nat → Bool) (k : Nat) :
+    (∃ j, d.firstFrom p k = some j ∧ k ≤ j ∧ j < d.length ∧ p j = true ∧ ∀ i, k ≤ i → i < j → p i = false) ∨
+    (d.firstFrom p k = none ∧ ∀ i, k ≤ i → i < d.length → p i = false) := by
+  by_cases c : k ≤ d.length
+  · exact nextFrom_spec p d.length (d.length + 1 - k) k (by omega)
+  · refine Or.inr ⟨?_, fun i a b => by omega⟩
+    have e : d.length + 1 - k = 0 := by omega
+    simp [firstFrom, e, nextFrom]
+
+/-- following `next` = "least later index satisfying `p`" from the least index ≥ `a` enumerates the filter -/
+theorem chain_filter (d : Doc) (p : Nat → Bool) (next : Nat → Option Nat)
+    (hnext : ∀ m, m < d.length → p m = true → next m = d.firstFrom p (m + 1)) :
+    ∀ (f a : Nat), d.length - a < f →
+      chain next f (d.firstFrom p a) = (List.range' a (d.length - a)).filter p := by
+  intro f
+  induction f with
+  | zero => intro a h; omega
+  | succ f ih =>
+    intro a h
+    rcases firstFrom_spec d p a with ⟨j, h1, h2, h3, h4, h5⟩ | ⟨h1, h2⟩
+    · rw [h1]
+      simp only [chain]
+      rw [hnext j h3 h4, ih (j + 1) (by omega)]
+      rw [filter_range'_first p (j - a) a (d.length - a) j rfl h2 (by omega) h5 h4]
+      have e : a + (d.length - a) - (j + 1) = d.length - (j + 1) := by omega
+      rw [e]
+    · rw [h1]
+      simp only [chain]
+      rw [filter_range'_none]
+      intro i a1 a2
+      exact h2 i a1 (by omega)
+
+/-- dropping the part of the table where the predicate cannot hold -/
+theorem filter_from (d : Doc) (q : Nat → Bool) (a : Nat) (ha : a ≤ d.length) (h : ∀ m, m < d.length → q m = true → a ≤ m) :
+    (List.range' 0 d.length).filter q = (List.range' a (d.length - a)).filter q := by
+  rw [← filter_range'_window q 0 d.length a d.length (by omega) ha (by omega)]
+  apply List.filter_congr
+  intro m hm
+  have hm' := List.mem_range'_1.mp hm
+  have hml : m < d.length := by omega
+  cases hq : q m with
+  | false => simp
+  | true => simp [h m hml hq, hml]
+
+theorem parent_lt (d : Doc) (hw : WF d) (m p : Nat) (hm : m < d.length) (hp : d.parentOf m = some p) : p < m := by
+  have h5 := hw.w5 m hm
+  rw [hp] at h5
+  exact h5.1
+
+theorem findChildren_spec (d : Doc) (hw : WF d) (n : Nat) (hn : n < d.length) :
+    d.findChildren n = d.axis .child n := by
+  unfold findChildren firstChild
+  rw [chain_filter d (fun m => d.parentOf m == some n && !d.isAttr m) d.nextSibling ?_ d.length (n + 1) (by omega)]
+  · simp only [axis, Axis.isReverse, ids, List.range_eq_range', Bool.false_eq_true, if_false]
+    have : d.onAxis .child n = (fun m => d.parentOf m == some n && !d.isAttr m) := by funext m; rfl
+    rw [this]
+    exact (filter_from d _ (n + 1) (by omega) (fun m hm hq => by
+      simp only [Bool.and_eq_true, beq_iff_eq] at hq
+      have := parent_lt d hw m n hm hq.1
+      omega)).symm
+  · intro m hm hq
+    simp only [Bool.and_eq_true, beq_iff_eq, Bool.not_eq_true'] at hq
+    simp [nextSibling, hq.1, hq.2]
+
+theorem findAttributes_spec (d : Doc) (hw : WF d) (n : Nat) (hn : n < d.length) :
+    d.findAttributes n = d.axis .attribute n := by
+  simp only [axis, Axis.isReverse, ids, List.range_eq_range', Bool.false_eq_true, if_false]
+  have hax : d.onAxis .attribute n = (fun m => d.parentOf m == some n && d.isAttr m) := by funext m; rfl
+  rw [hax]
+  unfold findAttributes
+  by_cases hk : d.kindOf n = .elem
+  · simp only [hk, BEq.rfl, if_true]
+    rw [chain_filter d (fun m => d.parentOf m == some n && d.isAttr m) _ (fun m _ _ => rfl) d.length (n + 1) (by omega)]
+    exact (filter_from d _ (n + 1) (by omega) (fun m hm hq => by
+      simp only [Bool.and_eq_true, beq_iff_eq] at hq
+      have := parent_lt d hw m n hm hq.1
+      omega)).symm
+  · have : (d.kindOf n == Kind.elem) = false := by
+      cases hkk : d.kindOf n <;> first | rfl | (exact absurd hkk hk)
+    simp only [this, Bool.false_eq_true, if_false]
+    symm
+    apply List.filter_eq_nil_iff.mpr
+    intro m hm hq
+    have hm' := List.mem_range'_1.mp hm
+    simp only [Bool.and_eq_true, beq_iff_eq] at hq
+    have := hw.w10 m (by omega) hq.2
+    rw [hq.1] at this
+    exact hk this
+
+theorem findFollowingSiblings_spec (d : Doc) (hw : WF d) (n : Nat) (hn : n < d.length) :
+    d.findFollowingSiblings n = d.axis .followingSibling n := by
+  simp only [axis, Axis.isReverse, ids, List.range_eq_range', Bool.false_eq_true, if_false]
+  unfold findFollowingSiblings
+  by_cases hattr : d.isAttr n = true
+  · have : d.nextSibling n = none := by simp [nextSibling, hattr]
+    rw [this]
+    have : chain d.nextSibling d.length none = [] := by cases d.length <;> rfl
+    rw [this]
+    symm
+    apply List.filter_eq_nil_iff.mpr
+    intro m _
+    simp [onAxis, hattr]
+  · have hna : d.isAttr n = false := by simpa using hattr
+    cases hp : d.parentOf n with
+    | none =>
+      have : d.nextSibling n = none := by simp [nextSibling, hna, hp]
+      rw [this]
+      have : chain d.nextSibling d.length none = [] := by cases d.length <;> rfl
+      rw [this]
+      symm
+      apply List.filter_eq_nil_iff.mpr
+      intro m _
+      simp [onAxis, hp]
+    | some p =>
+      have hns : d.nextSibling n = d.firstFrom (fun k => d.parentOf k == some p && !d.isAttr k) (n + 1) := by
+        simp [nextSibling, hna, hp]
+      rw [hns, chain_filter d (fun k => d.parentOf k == some p && !d.isAttr k) d.nextSibling ?_ d.length (n + 1) (by omega)]
+      · rw [← filter_range'_window _ 0 d.length (n + 1) d.length (by omega) (by omega) (by omega)]
+        apply List.filter_congr
+        intro m hm
+        have hm' := List.mem_range'_1.mp hm
+        have hml : m < d.length := by omega
+        simp only [onAxis, hna, hp]
+        by_cases c : n < m
+        · have c' : n + 1 ≤ m := c
+          simp [c, c', hml, Bool.and_comm]
+        · have c' : ¬ (n + 1 ≤ m) := by omega
+          simp [c, c']
+      · intro m hm hq
+        simp only [Bool.and_eq_true, beq_iff_eq, Bool.not_eq_true'] at hq
+        simp [nextSibling, hq.1, hq.2]
+
+/-- `prevBelow` walks down from `a`: following it enumerates the filter over `[0, a)` backwards -/
+theorem chain_prev (p : Nat → Bool) (next : Nat → Option Nat) (hnext : ∀ m, p m = true → next m = prevBelow p m) :
+    ∀ (a f : Nat), a < f → chain next f (prevBelow p a) = ((List.range' 0 a).filter p).reverse := by
+  intro a
+  induction a with
+  | zero => intro f h; cases f <;> rfl
+  | succ a ih =>
+    intro f h
+    rw [List.range'_concat, List.filter_append, List.reverse_append]
+    simp only [Nat.zero_add, Nat.one_mul]
+    by_cases c : p a = true
+    · obtain ⟨f', hf'⟩ : ∃ f', f = f' + 1 := ⟨f - 1, by omega⟩
+      subst hf'
+      simp only [prevBelow, c, if_true, chain, List.filter_cons, List.filter_nil, List.reverse_cons, List.reverse_nil,
+        List.nil_append, List.singleton_append]
+      rw [hnext a c, ih f' (by omega)]
+    · have c' : p a = false := by simpa using c
+      simp only [prevBelow, c', Bool.false_eq_true, if_false, List.filter_cons, List.filter_nil, List.reverse_nil, List.nil_append]
+      exact ih f (by omega)
+
+theorem findPreceedingSiblings_spec (d : Doc) (hw : WF d) (n : Nat) (hn : n < d.length) :
+    d.findPreceedingSiblings n = d.axis .precedingSibling n := by
+  simp only [axis, Axis.isReverse, ids, List.range_eq_range', if_true]
+  unfold findPreceedingSiblings
+  by_cases hattr : d.isAttr n = true
+  · have : d.prevSibling n = none := by simp [prevSibling, hattr]
+    rw [this]
+    have : chain d.prevSibling d.length none = [] := by cases d.length <;> rfl
+    rw [this]
+    symm
+    rw [List.reverse_eq_nil_iff]
+    apply List.filter_eq_nil_iff.mpr
+    intro m _
+    simp [onAxis, hattr]
+  · have hna : d.isAttr n = false := by simpa using hattr
+    cases hp : d.parentOf n with
+    | none =>
+      have : d.prevSibling n = none := by simp [prevSibling, hna, hp]
+      rw [this]
+      have : chain d.prevSibling d.length none = [] := by cases d.length <;> rfl
+      rw [this]
+      symm
+      rw [List.reverse_eq_nil_iff]
+      apply List.filter_eq_nil_iff.mpr
+      intro m _
+      simp [onAxis, hp]
+    | some p =>
+      have hps : d.prevSibling n = prevBelow (fun k => d.parentOf k == some p && !d.isAttr k) n := by
+        simp [prevSibling, hna, hp]
+      rw [hps, chain_prev (fun k => d.parentOf k == some p && !d.isAttr k) d.prevSibling ?_ n d.length hn]
+      · congr 1
+        have hwin := filter_range'_window (fun k => d.parentOf k == some p && !d.isAttr k) 0 d.length 0 n (by omega) (by omega) (by omega)
+        simp only [Nat.sub_zero] at hwin
+        rw [← hwin]
+        apply List.filter_congr
+        intro m hm
+        simp only [onAxis, hna, hp]
+        by_cases c : m < n <;> simp [c, Bool.and_comm]
+      · intro m hq
+        simp only [Bool.and_eq_true, beq_iff_eq, Bool.not_eq_true'] at hq
+        simp [prevSibling, hq.1, hq.2]
+
+theorem filter_single (N p : Nat) (hp : p < N) : (List.range' 0 N).filter (fun m => m == p) = [p] := by
+  have h := filter_range'_first (fun m => m == p) (p - 0) 0 N p rfl (by omega) (by omega)
+    (fun j _ hj => by simp; omega) (by simp)
+  rw [h]
+  congr 1
+  apply filter_range'_none
+  intro j h1 h2
+  simp; omega
+
+theorem findSelf_spec (d : Doc) (n : Nat) (hn : n < d.length) : d.findSelf n = d.axis .self n := by
+  simp only [axis, Axis.isReverse, ids, List.range_eq_range', Bool.false_eq_true, if_false, findSelf]
+  have : d.onAxis .self n = (fun m => m == n) := by funext m; rfl
+  rw [this, filter_single d.length n hn]
+
+theorem findParent_spec (d : Doc) (hw : WF d) (n : Nat) (hn : n < d.length) : d.findParent n = d.axis .parent n := by
+  simp only [axis, Axis.isReverse, ids, List.range_eq_range', Bool.false_eq_true, if_false, findParent]
+  cases hp : d.parentOf n with
+  | none =>
+    symm
+    apply List.filter_eq_nil_iff.mpr
+    intro m _
+    simp [onAxis, hp]
+  | some p =>
+    have hlt := parent_lt d hw n p hn hp
+    have : d.onAxis .parent n = (fun m => m == p) := by
+      funext m
+      simp only [onAxis, hp]
+      show (some p == some m) = (m == p)
+      by_cases c : m = p
+      · subst c; simp
+      · have c2 : ¬ p = m := fun h => c h.symm
+        have e1 : (p == m) = false := by simp [c2]
+        have e2 : (m == p) = false := by simp [c]
+        simp [e1, e2]
+    rw [this, filter_single d.length p (by omega)]
+    rfl
+
+theorem findNamespace_spec (d : Doc) (n : Nat) : d.find .namespace n = d.axis .namespace n := by
+  simp only [find, axis, Axis.isReverse, Bool.false_eq_true, if_false]
+  symm
+  apply List.filter_eq_nil_iff.mpr
+  intro m _
+  simp [onAxis]
+
+theorem chain_parent (d : Doc) : ∀ (f i : Nat), chain d.parentOf f (d.parentOf i) = d.ancestorsF f i := by
+  intro f
+  induction f with
+  | zero => intro i; cases d.parentOf i <;> rfl
+  | succ f ih =>
+    intro i
+    cases hp : d.parentOf i with
+    | none => simp [chain, ancestorsF, hp]
+    | some p => simp [chain, ancestorsF, hp, ih p]
+
+theorem ancestorsF_sorted (d : Doc) (hw : WF d) : ∀ (f i : Nat), i < d.length →
+    (d.ancestorsF f i).Pairwise (fun a b => b < a) ∧ ∀ x ∈ d.ancestorsF f i, x < i := by
+  intro f
+  induction f with
+  | zero => intro i _; simp [ancestorsF]
+  | succ f ih =>
+    intro i hi
+    cases hp : d.parentOf i with
+    | none => simp [ancestorsF, hp]
+    | some p =>
+      have hlt := parent_lt d hw i p hi hp
+      obtain ⟨h1, h2⟩ := ih p (by omega)
+      simp only [ancestorsF, hp, List.pairwise_cons, List.mem_cons]
+      refine ⟨⟨fun x hx => h2 x hx, h1⟩, ?_⟩
+      intro x hx
+      rcases hx with hx | hx
+      · omega
+      · have := h2 x hx; omega
+
+/-- a strictly decreasing list of indices is what filtering the table by membership and reversing gives back -/
+theorem reverse_filter_contains : ∀ (l : List Nat) (N : Nat), l.Pairwise (fun a b => b < a) → (∀ x ∈ l, x < N) →
+    ((List.range' 0 N).filter (fun m => l.contains m)).reverse = l := by
+  intro l
+  induction l with
+  | nil =>
+    intro N _ _
+    have : (List.range' 0 N).filter (fun m => ([] : List Nat).contains m) = [] := by
+      apply List.filter_eq_nil_iff.mpr; intro m _; simp
+    rw [this]; rfl
+  | cons a t ih =>
+    intro N hp hb
+    have haN : a < N := hb a (List.mem_cons_self ..)
+    obtain ⟨hta, htp⟩ := List.pairwise_cons.mp hp
+    have e1 : List.range' 0 N = List.range' 0 a ++ (a :: List.range' (a + 1) (N - (a + 1))) := by
+      have := @List.range'_append 0 a (N - a) 1
+      simp only [Nat.zero_add, Nat.one_mul] at this
+      have e : a + (N - a) = N := by omega
+      rw [e] at this
+      rw [← this]
+      congr 1
+      obtain ⟨l', hl'⟩ : ∃ l', N - a = l' + 1 := ⟨N - a - 1, by omega⟩
+      rw [hl', List.range'_succ]
+      congr 2
+      omega
+    rw [e1, List.filter_append, List.filter_cons]
+    have ha : (a :: t).contains a = true := by simp
+    simp only [ha, if_true]
+    have hlast : (List.range' (a + 1) (N - (a + 1))).filter (fun m => (a :: t).contains m) = [] := by
+      apply filter_range'_none
+      intro j h1 h2
+      have : j ≠ a := by omega
+      have hnt : j ∉ t := fun hj => by have := hta j hj; omega
+      simp [this, hnt]
+    rw [hlast, List.reverse_append]
+    have hfirst : (List.range' 0 a).filter (fun m => (a :: t).contains m) = (List.range' 0 a).filter (fun m => t.contains m) := by
+      apply List.filter_congr
+      intro m hm
+      have := List.mem_range'_1.mp hm
+      have : m ≠ a := by omega
+      simp [this]
+    rw [hfirst, ih a htp (fun x hx => hta x hx)]
+    rfl
+
+theorem findAncestors_spec (d : Doc) (hw : WF d) (n : Nat) (hn : n < d.length) :
+    d.findAncestors n = d.axis .ancestor n := by
+  simp only [axis, Axis.isReverse, ids, List.range_eq_range', if_true]
+  unfold findAncestors
+  rw [chain_parent]
+  have hs := ancestorsF_sorted d hw d.length n hn
+  have : d.onAxis .ancestor n = (fun m => (d.ancestors n).contains m) := by funext m; rfl
+  rw [this, reverse_filter_contains (d.ancestors n) d.length hs.1 (fun x hx => by have := hs.2 x hx; omega)]
+  rfl
+
+theorem findAncestorsOrSelf_spec (d : Doc) (hw : WF d) (n : Nat) (hn : n < d.length) :
+    d.findAncestorsOrSelf n = d.axis .ancestorOrSelf n := by
+  simp only [axis, Axis.isReverse, ids, List.range_eq_range', if_true]
+  unfold findAncestorsOrSelf
+  simp only [chain]
+  rw [chain_parent]
+  have hs := ancestorsF_sorted d hw d.length n hn
+  have : d.onAxis .ancestorOrSelf n = (fun m => (n :: d.ancestors n).contains m) := by
+    funext m
+    simp only [onAxis, List.contains_cons]
+  rw [this, reverse_filter_contains (n :: d.ancestors n) d.length
+    (List.pairwise_cons.mpr ⟨fun x hx => hs.2 x hx, hs.1⟩)
+    (fun x hx => by
+      rcases List.mem_cons.mp hx with h | h
+      · omega
+      · have := hs.2 x h; omega)]
+  rfl
+
+/-- **`axes_spec`**: every `find*` walk of `XPath.cpp` returns exactly the nodes of its axis, in proximity order, for every
+well-formed document and every context node. -/
+theorem find_spec (d : Doc) (hw : WF d) (a : Axis) (n : Nat) (hn : n < d.length) : d.find a n = d.axis a n := by
+  cases a
+  · exact findAncestors_spec d hw n hn
+  · exact findAncestorsOrSelf_spec d hw n hn
+  · exact findAttributes_spec d hw n hn
+  · exact findChildren_spec d hw n hn
+  · exact findDescendants_spec d hw n hn false
+  · exact findDescendants_spec d hw n hn true
+  · exact findFollowing_spec d hw n hn
+  · exact findFollowingSiblings_spec d hw n hn
+  · exact findNamespace_spec d n
+  · exact findParent_spec d hw n hn
+  · exact findPreceeding_spec d hw n hn
+  · exact findPreceedingSiblings_spec d hw n hn
+  · exact findSelf_spec d n hn
+
+
 end Doc
 end XalanModel.C02
